@@ -1918,6 +1918,106 @@ fn c13_successive(k: usize, family: usize) {
   e::cover("c13-successive-path-complete");
 }
 
+/// Nested subscriptions: a clone of the pipeline is subscribed from *inside* a notification that another
+/// subscription of it is delivering (from a queued inner started on an inner's completion path; from a scheduler
+/// task). Its log must be the one the same subscription produces when made at top level: no ambient state (a
+/// thread-local "we are inside …" flag, a borrowed cell) may leak from the subscription that is on the stack.
+fn c13_nested(max_items: u32) {
+  let kind = e::choose(6);
+  let xs: Vec<Val> = (0..1 + e::choose(max_items)).map(|_| Val::var()).collect();
+  let cs: Vec<Val> = (0..1 + e::choose(max_items)).map(|_| Val::var()).collect();
+  let at = e::choose(3) as usize; // the delivery of the outer subscription from inside which the clone is subscribed
+  let v = Val::var();
+  let name = ["concat_all", "merge_all(1)", "concat_map", "observe_on + merge", "subscribe_on + merge", "delay + merge"][kind as usize];
+  e::note(format!("{} ; the clone is subscribed from inside delivery #{} of another subscription ; xs [{}] cs [{}]", name, at, xs.iter().map(|v| v.show()).collect::<Vec<_>>().join(" "), cs.iter().map(|v| v.show()).collect::<Vec<_>>().join(" ")));
+  e::cfg_begin(name);
+  let (a, b, diverged) = e::twice(
+    |second| {
+      let sd = world::any_sched();
+      PHASE.with(|p| p.set(0));
+      let (xs1, xs2, cs1) = (xs.clone(), xs.clone(), cs.clone());
+      // first inner / first branch: hot in phase 0 (the outer subscription), cold in phase 1 (the nested clone)
+      let first: Obs = observable::defer(move || if PHASE.with(|p| p.get()) == 0 { cat::hot_tagged(0) } else { cat::cold(xs1.clone(), Tm::Complete, 0) }).box_it();
+      let o: Obs = match kind {
+        // (concat_all / concat_map values are not Clone: built per subscription; what is looked for here is ambient, not per-value, state)
+        0 => observable::defer(move || observable::from_iter(vec![first.clone(), cat::cold(cs1.clone(), Tm::Complete, 0)]).on_error_map(|_: std::convert::Infallible| Val::c(0)).concat_all()).box_it(),
+        1 => observable::defer(move || observable::from_iter(vec![first.clone(), cat::cold(cs1.clone(), Tm::Complete, 0)]).on_error_map(|_: std::convert::Infallible| Val::c(0)).merge_all(1)).box_it(),
+        2 => {
+          let inners = vec![first, cat::cold(cs1, Tm::Complete, 0)];
+          observable::defer(move || {
+            let inners = inners.clone();
+            observable::from_iter(vec![0usize, 1]).on_error_map(|_: std::convert::Infallible| Val::c(0)).concat_map(move |i: usize| inners[i].clone())
+          })
+          .box_it()
+        }
+        3 => cat::cold(xs2, Tm::Complete, 0).observe_on(sd).merge(cat::cold(cs1, Tm::Complete, 0)).box_it(),
+        4 => cat::cold(xs2, Tm::Complete, 0).subscribe_on(sd).merge(cat::cold(cs1, Tm::Complete, 0)).box_it(),
+        _ => cat::cold(xs2, Tm::Complete, 0).delay(d(0), sd).merge(cat::cold(cs1, Tm::Complete, 0)).box_it(),
+      };
+      let pb = fresh_probe();
+      if second {
+        let pa = fresh_probe();
+        let o2 = o.clone();
+        let mut seen = 0usize;
+        let mut done = false;
+        world::w(|w| {
+          w.on_probe_event = Some(Box::new(move |_ev: &Ev| {
+            if done {
+              return;
+            }
+            if seen == at {
+              done = true;
+              e::note("  (a clone is subscribed from inside this notification)".to_string());
+              PHASE.with(|p| p.set(1));
+              std::mem::forget(o2.clone().actual_subscribe(pb));
+              PHASE.with(|p| p.set(0));
+            }
+            seen += 1;
+          }))
+        });
+        std::mem::forget(o.clone().actual_subscribe(pa));
+        if kind < 3 {
+          // the outer subscription's hot inner emits and completes: the queued cold inner starts on that path
+          cat::feed_hot(0, &Ev::Next(v.clone()));
+          cat::feed_hot(0, &Ev::Complete);
+        }
+        for _ in 0..4 {
+          world::run_fifo_until_stalled(64);
+          world::advance(1);
+        }
+        world::w(|w| w.on_probe_event = None);
+        if pb.len() == 0 && !pb.terminated() && pa.len() <= at {
+          // the outer subscription never reached delivery #at: nothing was nested; subscribe at top level instead
+          PHASE.with(|p| p.set(1));
+          std::mem::forget(o.clone().actual_subscribe(pb));
+          PHASE.with(|p| p.set(0));
+        }
+      } else {
+        PHASE.with(|p| p.set(1));
+        std::mem::forget(o.clone().actual_subscribe(pb));
+        PHASE.with(|p| p.set(0));
+      }
+      for _ in 0..4 {
+        world::run_fifo_until_stalled(64);
+        world::advance(1);
+      }
+      all_logs_of(pb)
+    },
+    || world::reset_world(),
+  );
+  if diverged {
+    e::fail(&format!("nested/{}/control-flow-diverged", name), || "the nested run asked for different choices".to_string());
+  }
+  let key = format!("nested/{}/differs-from-top-level", name);
+  let detail = || format!("subscribed at top level [{}] ; subscribed from inside another subscription's notification [{}]", model::show_events(&a), model::show_events(&b));
+  match model::compare_events(&a, &b) {
+    Ok(t) => e::check(t, &key, detail),
+    Err(why) => e::fail(&key, || format!("{} ; {}", why, detail())),
+  }
+  e::cfg_end(name);
+  e::cover("c13-nested-path-complete");
+}
+
 pub fn harnesses4() -> Vec<HarnessDef> {
   fn hd(id: &'static str, about: &'static str, bounds: fn(bool) -> String, f: Box<dyn Fn(bool) + Send + Sync>, sampled: bool) -> HarnessDef {
     HarnessDef { id, props: vec!["C13"], about, bounds, f, budget_quick: 3_000_000, budget_thorough: 40_000_000, thorough_only: false, sampled }
@@ -1929,6 +2029,7 @@ pub fn harnesses4() -> Vec<HarnessDef> {
     format!("{} events on the hot inputs; twin subscribe / unsubscribe moments chosen; hook-FIFO executor", if t { 4 } else { 3 })
   }
   vec![
+    hd("c13_nested", "a clone subscribed from inside a notification of another subscription of the same pipeline (delivered on a flattening operator's queue-start path, or by a scheduler task) behaves as one subscribed at top level", |t| format!("concat_all, merge_all(1), concat_map, observe_on/subscribe_on/delay + merge; <= {} symbolic items per part; nested at delivery 0..2", if t { 3 } else { 2 }), Box::new(|t| c13_nested(if t { 3 } else { 2 })), false),
     hd("c13_stateful", "map / filter_map / combine_latest / take_while with stateful FnMut closures: a second subscription of a clone starts from the closure's state at build time, whatever an earlier subscription did to its own copy", bs, Box::new(|t| c13_successive(if t { 4 } else { 3 }, 0)), false),
     hd("c13_successive_binary", "successive subscriptions of clones of one two-input operator value: the second one's log does not depend on what the first one went through (errors included)", bs, Box::new(|t| c13_successive(if t { 4 } else { 3 }, 1)), false),
     hd("c13_successive_unary", "the same for every unary operator of the catalogue", bs, Box::new(|t| c13_successive(if t { 4 } else { 3 }, 2)), true),
